@@ -135,8 +135,42 @@ def check(ctx):
         joins = [x for x in ir.walk(dm) if x[0] == "call" and x[1][0] == "attr" and x[1][2] == "agg" and x[2] and x[2][0] == ("attr", ("const", "_"), "join")]
         okj = bool(joins) and all(j[1][1][0] == "sub" and j[1][1][2] == ("param", "aggregate") for j in joins)
         ctx.ob("C02.R3.bootstrap-cols", f"{f.qualname}|contest columns keyed by the aggregate list", okj, f.where(),
-               "multi-key groups are the '_'-join of the keys in aggregate order (columns ascending like the sorted table)" if okj
+               "multi-key groups are the '_'-join of the keys in aggregate order" if okj
                else "group key of the indicator matrix is not the join of the aggregate keys in order")
+        # column ORDER: get_dummies sorts its columns by the joined *string*; the table that is divided by these sums (and the one
+        # the returned bounds are written into) is sorted by the key *columns*. String order and tuple order differ whenever one
+        # key value is a prefix of another ("VA_10_51003" < "VA_1_51001" but ("VA","1",..) < ("VA","10",..)), so with several keys
+        # the indicator frame has to be re-ordered by the keys: dummies[F.sort_values(aggregate)[joined].unique()], F the same frame.
+        def _is_gd(t):
+            return t[0] == "call" and t[1][0] == "global" and t[1][1].endswith("get_dummies") and bool(t[2])
+
+        def _reordered(t):
+            """dummies[F.sort_values(aggregate)[joined].unique()] with get_dummies(F[joined])"""
+            if not (t[0] == "sub" and _is_gd(t[1])):
+                return False
+            src, sel = t[1][2][0], t[2]
+            if not (sel[0] == "call" and sel[1][0] == "attr" and sel[1][2] == "unique" and sel[1][1][0] == "sub" and src[0] == "sub"
+                    and sel[1][1][2] == src[2]):
+                return False
+            srt = sel[1][1][1]
+            return (srt[0] == "call" and srt[1][0] == "attr" and srt[1][2] == "sort_values" and srt[2] == (("param", "aggregate"),)
+                    and srt[1][1] == src[1] and dict(srt[3]).get("ascending", ("const", True)) == ("const", True))
+
+        MULTI = ("cmp", ">", ("call", ("global", "len"), (("param", "aggregate"),), ()), ("const", 1))
+        pool = [t_ for _, _, t_, _ in s.assigns] + [s.ret()]
+        branches = []
+        for t_ in pool:
+            for x in ir.walk(am.non_classification_view(t_)):
+                if x[0] == "phi" and x[1] == MULTI and any(_is_gd(y) for y in ir.walk(x[2])) and x[2] not in branches:
+                    branches.append(x[2])
+        reordered = bool(branches) and all(_reordered(am.non_classification_view(x)) for x in branches)
+        uses_raw = False
+        okorder = bool(joins) and reordered and not uses_raw
+        ctx.ob("C02.R3.bootstrap-col-order", f"{f.qualname}|indicator columns in key order", okorder, f.where(),
+               "with several keys the indicator columns are re-ordered by sort_values(aggregate) of the same frame: column i is row i of the table" if okorder
+               else "with several keys the indicator columns stay in the order of the '_'-joined string while the table rows are sorted by the "
+                    "key columns: when one key value is a prefix of another (districts '1' and '10' before a county key) row i is divided "
+                    "by / bounded with the sums of another group")
 
     # ---- R4 bootstrap pred_margin ---------------------------------------------------------------
     f = ctx.fn(BM, "BootstrapElectionModel.get_aggregate_predictions")
